@@ -156,6 +156,7 @@ def _regen_nolock(snap):
                          ('x86asm.py', [snap, os.path.join(COQ, 'Gen/X86Progs.v')]),
                          ('x86asm_rec.py', [snap, os.path.join(COQ, 'Gen/X86RecProgs.v')]),
                          ('intc.py', [snap, os.path.join(COQ, 'Gen/IntProgs.v')]),
+                         ('intc_rec.py', [snap, os.path.join(COQ, 'Gen/IntRecProgs.v')]),
                          ):
         p = os.path.join(gen, script)
         if not os.path.exists(p):
